@@ -8,8 +8,8 @@
 //!   an explicit switch point is issued: "the mutex was just released" is a window for every
 //!   call site (shuttle's own release is a yield point *before* the release only);
 //! * `RwLock` is the shim's own: never a scheduling point when uncontended (RainDB uses it as an
-//!   interior-mutability cell below the database mutex and inside caches), yields until
-//!   available when contended; recursive reads are allowed like parking_lot's when no writer waits;
+//!   interior-mutability cell below the database mutex and inside caches); when contended the
+//!   task blocks on a condition variable of the runtime until an unlock notifies it; recursive reads are allowed like parking_lot's when no writer waits;
 //! * no poisoning (parking_lot has none).
 
 pub mod verif_rt;
@@ -213,61 +213,126 @@ impl fmt::Debug for Condvar {
 // ------------------------------------------------------------------------------------------------
 
 struct RawRw {
-    // (number of readers, writer present). Never contended: all tasks run on one OS thread and
-    // the std mutex is never held across a switch.
-    st: std::sync::Mutex<(usize, bool)>,
+    // (number of readers, writer present, number of tasks waiting). Never contended: all tasks
+    // run on one OS thread and the std mutex is never held across a switch.
+    st: std::sync::Mutex<(usize, bool, usize)>,
+    // Only used when the lock is contended: waiting tasks block on the condition variable (they
+    // are not runnable, so the explorer does not branch on a spinning waiter) and the unlocking
+    // task notifies them.
+    gate: ss::Mutex<()>,
+    cv: ss::Condvar,
 }
 
 impl RawRw {
-    const fn new() -> Self {
+    fn new() -> Self {
         RawRw {
-            st: std::sync::Mutex::new((0, false)),
+            st: std::sync::Mutex::new((0, false, 0)),
+            gate: ss::Mutex::new(()),
+            cv: ss::Condvar::new(),
         }
     }
 
-    fn st(&self) -> std::sync::MutexGuard<'_, (usize, bool)> {
+    fn st(&self) -> std::sync::MutexGuard<'_, (usize, bool, usize)> {
         match self.st.lock() {
             Ok(g) => g,
             Err(p) => p.into_inner(),
         }
     }
 
-    fn lock_shared(&self) {
+    fn try_shared(&self) -> bool {
+        let mut st = self.st();
+        if !st.1 {
+            st.0 += 1;
+            true
+        } else {
+            false
+        }
+    }
+
+    fn try_exclusive(&self) -> bool {
+        let mut st = self.st();
+        if !st.1 && st.0 == 0 {
+            st.1 = true;
+            true
+        } else {
+            false
+        }
+    }
+
+    /// Contended path: register as a waiter, then block until an unlock notifies. The state is
+    /// re-examined under the gate, and an unlocking task needs the gate to notify, so a wake-up
+    /// cannot be lost between the re-examination and the wait.
+    fn wait_until(&self, kind: &'static str, try_acquire: impl Fn(&Self) -> bool) {
+        if !verif_rt::in_execution() {
+            panic!("parking_lot shim: {kind} would block outside of a controlled execution");
+        }
+        self.st().2 += 1;
         loop {
-            {
-                let mut st = self.st();
-                if !st.1 {
-                    st.0 += 1;
-                    return;
-                }
+            verif_rt::note(kind);
+            let g = match self.gate.lock() {
+                Ok(g) => g,
+                Err(p) => p.into_inner(),
+            };
+            if try_acquire(self) {
+                self.st().2 -= 1;
+                drop(g);
+                return;
             }
-            verif_rt::contended_yield("rw.read");
+            verif_rt::note(kind);
+            let g = match self.cv.wait(g) {
+                Ok(g) => g,
+                Err(p) => p.into_inner(),
+            };
+            drop(g);
+        }
+    }
+
+    fn lock_shared(&self) {
+        if !self.try_shared() {
+            self.wait_until("rw.read", Self::try_shared);
         }
     }
 
     fn lock_exclusive(&self) {
-        loop {
-            {
-                let mut st = self.st();
-                if !st.1 && st.0 == 0 {
-                    st.1 = true;
-                    return;
-                }
-            }
-            verif_rt::contended_yield("rw.write");
+        if !self.try_exclusive() {
+            self.wait_until("rw.write", Self::try_exclusive);
+        }
+    }
+
+    fn wake(&self, waiters: usize) {
+        if waiters > 0 && verif_rt::in_execution() && !std::thread::panicking() {
+            verif_rt::note("rw.wake");
+            let g = match self.gate.lock() {
+                Ok(g) => g,
+                Err(p) => p.into_inner(),
+            };
+            self.cv.notify_all();
+            drop(g);
         }
     }
 
     fn unlock_shared(&self) {
-        let mut st = self.st();
-        debug_assert!(st.0 > 0);
-        st.0 -= 1;
+        let waiters = {
+            let mut st = self.st();
+            debug_assert!(st.0 > 0);
+            st.0 -= 1;
+            if st.0 == 0 {
+                st.2
+            } else {
+                0
+            }
+        };
+        self.wake(waiters);
     }
 
     fn unlock_exclusive(&self) {
-        let mut st = self.st();
-        debug_assert!(st.1);
-        st.1 = false;
+        let waiters = {
+            let mut st = self.st();
+            debug_assert!(st.1);
+            st.1 = false;
+            st.2
+        };
+        self.wake(waiters);
     }
 }
 
@@ -280,7 +345,7 @@ unsafe impl<T: ?Sized + Send> Send for RwLock<T> {}
 unsafe impl<T: ?Sized + Send + Sync> Sync for RwLock<T> {}
 
 impl<T> RwLock<T> {
-    pub const fn new(value: T) -> Self {
+    pub fn new(value: T) -> Self {
         RwLock {
             raw: RawRw::new(),
             data: UnsafeCell::new(value),
